@@ -17,46 +17,12 @@ import (
 //   - unicode.IsSpace of the toolchain (strings.TrimSpace in parseCss,
 //     allSpace in parseSwitch), evaluated on every code point.
 func init() {
-	register("40-parser-items", (*gen).parserItems)
-	register("41-parser-begintag", (*gen).parserBeginTag)
-	register("42-unicode-isspace", (*gen).unicodeIsSpace)
+	register("50-cmdparser-items", (*gen).cmdParserItems)
+	register("51-cmdparser-begintag", (*gen).parserBeginTag)
+	register("52-unicode-isspace", (*gen).unicodeIsSpace)
 }
 
-// itemCodes reads the const block of itemType (iota order).
-func (g *gen) itemCodes() (names []string, codes map[string]int) {
-	codes = map[string]int{}
-	for _, d := range g.file("parse/lexer.go").Decls {
-		gd, ok := d.(*ast.GenDecl)
-		if !ok || gd.Tok != token.CONST || len(gd.Specs) == 0 {
-			continue
-		}
-		first, ok := gd.Specs[0].(*ast.ValueSpec)
-		if !ok || len(first.Names) != 1 || first.Names[0].Name != "itemInvalid" {
-			continue
-		}
-		if id, ok := first.Type.(*ast.Ident); !ok || id.Name != "itemType" || len(first.Values) != 1 {
-			g.fail("itemType const block: first spec is not `itemInvalid itemType = iota`")
-			return
-		} else if v, ok := first.Values[0].(*ast.Ident); !ok || v.Name != "iota" {
-			g.fail("itemType const block: first value is not iota")
-			return
-		}
-		for i, s := range gd.Specs {
-			vs := s.(*ast.ValueSpec)
-			if len(vs.Names) != 1 || (i > 0 && (vs.Type != nil || len(vs.Values) != 0)) {
-				g.fail("itemType const block: spec %d is not a bare name", i)
-				return nil, map[string]int{}
-			}
-			names = append(names, vs.Names[0].Name)
-			codes[vs.Names[0].Name] = i
-		}
-		return
-	}
-	g.fail("itemType const block not found in parse/lexer.go")
-	return
-}
-
-func (g *gen) parserItems() {
+func (g *gen) cmdParserItems() {
 	names, codes := g.itemCodes()
 	g.p("(* parse/lexer.go: itemType codes (iota order), for Model/Parser.v *)\n")
 	js := map[string]int{}
